@@ -499,6 +499,10 @@ class Engine:
             if not args:
                 return set()
             v = args[0]
+            if isinstance(v, SSet):
+                out = stamp(SSet(v.kind, member=v.member, name=v.name + "_copy"))
+                out.card = v.card
+                return out
             if hasattr(v, "pyvc_contains"):
                 return v
             if isinstance(v, (list, tuple, set)):
